@@ -29,6 +29,10 @@ def OpKind.isTimer : OpKind → Bool
   | .timerOnce | .timerRep => true
   | _ => false
 
+inductive ObjKind where
+  | stream | regular | adapter | listener | packet | timer
+  deriving Repr, DecidableEq, Inhabited
+
 inductive Res where
   | ok | eof | cancelled | err        -- `err` = any other error class
   | timer | post                       -- timer / posted handler invocation (no result)
@@ -64,7 +68,7 @@ inductive Ret where
   deriving Repr, DecidableEq, Inhabited
 
 inductive Ev where
-  | obj (obj : Nat) (regular : Bool)      -- an object was created; a regular file starts with 256 stream bytes on disk
+  | obj (obj : Nat) (kind : ObjKind)      -- an object was created; a regular file starts with 256 stream bytes on disk
   | callStart (op obj : Nat) (kind : OpKind) (len : Nat)
   | callCancel (obj : Nat)
   | callClose (obj : Nat)
@@ -295,8 +299,8 @@ def retStep (s : S) (f : Frame) (r : Ret) : M S :=
   | _, _ => .ok s
 
 def step (s : S) : Ev → M S
-  | .obj obj regular =>
-      .ok (if regular then { s with regular := obj :: s.regular, peerSent := update s.peerSent obj 256 } else s)
+  | .obj obj kind =>
+      .ok (if kind == .regular then { s with regular := obj :: s.regular, peerSent := update s.peerSent obj 256 } else s)
   | .callStart op obj kind len =>
       guarded [((findOp s op).isSome, "op-id-reused")]
         { (setOp s { id := op, obj := obj, kind := kind, len := len, state := .starting }) with stack := .start op :: s.stack }
